@@ -25,11 +25,27 @@ pub fn gen(t: &mut Tape, tier: Tier) -> (DiffCase, Cfg) {
     if case.items.is_empty() {
         case.items.push(Item::Section(crate::gen::diff::gen_section_of_kind(t, &o, SK::Modified)));
     }
+    // git's default core.quotePath: names with bytes outside ASCII are written quoted, with octal escapes
+    if t.chance(1, 3) {
+        for it in case.items.iter_mut() {
+            if let Item::Section(s) = it {
+                if !s.new_path.is_ascii() || !s.old_path.is_ascii() {
+                    crate::gen::diff::quote_paths(s);
+                }
+            }
+        }
+    }
     let mut co = CfgOpts::unified();
     co.allow_hyperlinks = false; // hyperlinks are C19's; they do not change visible text
     let mut cfg = gen_tagged_cfg(t, &co);
     // this property is about the unified view without explicit raw/omit of hunk lines
     cfg.unset("side-by-side");
+    // delta's default for commit lines (raw style, no decoration): the line is not handled by the
+    // commit handler at all but falls through to the catch-all, which has its own flushing to do
+    if t.fork(7).chance(1, 5) {
+        cfg.set("commit-style", "raw");
+        cfg.set("commit-decoration-style", t.fork(8).ps(&["none", ""]));
+    }
     // conflict markers inside a combined diff open a merge-conflict region (not generated yet)
     for it in case.items.iter_mut() {
         if let Item::Section(s) = it {
@@ -112,6 +128,19 @@ pub fn evaluate(case: &DiffCase, cfg: &Cfg, out: &[u8], ctx: &mut Ctx) -> Result
     let crows = rows::classify_all(&sc);
     let file_omitted = cfg.get("file-style") == Some("omit");
     let mll = rows::max_line_length(cfg);
+    // commit headers: (hash, number of hunk lines that belong to the sections in front of it);
+    // none of those lines may be shown after the row naming that commit ("moved past a header")
+    let mut commit_bounds: Vec<(String, usize)> = Vec::new();
+    {
+        let mut nsec = 0usize;
+        for it in &case.items {
+            match it {
+                Item::Section(_) => nsec += 1,
+                Item::Commit(c) => commit_bounds.push((c.hash.clone(), exp.iter().filter(|e| e.sec < nsec).count())),
+                _ => {}
+            }
+        }
+    }
     // Without background fill (--width variable) an empty removed/added/unchanged line is just
     // an empty row without any tag; such rows are counted and may stand for expected empty lines.
     let lenient_blank = cfg.get("width") == Some("variable") && !cfg.has("keep-plus-minus-markers");
@@ -126,6 +155,18 @@ pub fn evaluate(case: &DiffCase, cfg: &Cfg, out: &[u8], ctx: &mut Ctx) -> Result
         Failure::new(format!("C01:{}", sig), format!("{} (output row {})", msg, rowno))
     };
     for (ri, cr) in crows.iter().enumerate() {
+        if !commit_bounds.is_empty() && !matches!(cr.kind, RowKind::Minus | RowKind::Plus | RowKind::Zero | RowKind::Mixed) {
+            let txt = cr.row.text();
+            if let Some((h, bound)) = commit_bounds.iter().find(|(h, _)| txt.contains(h.as_str())) {
+                if let Some(e) = exp[next.min(exp.len())..(*bound).max(next).min(exp.len())].iter().find(|e| !(lenient_blank && e.text.is_empty())) {
+                    return Err(fail(
+                        "moved-past-commit-header",
+                        format!("the header of commit {} is shown before {:?} line `{}` (section {}, hunk {}, line {}) of the commit in front of it", &h[..8], e.kind, e.text, e.sec, e.hunk, e.idx),
+                        ri,
+                    ));
+                }
+            }
+        }
         match cr.kind {
             RowKind::FileHeader => {
                 let txt = cr.row.text();
